@@ -24,6 +24,7 @@ type dExec struct {
 	finds     []finding
 	cnt       counters
 	c07seen   bool
+	curW      *scriptWriter // the writer of the current operation (e.w, or the local writer of `wt`)
 }
 
 func (e *dExec) find(prop, what, site, detail string) {
@@ -168,6 +169,15 @@ func (e *dExec) invariant(site string) {
 	}
 }
 
+// errName canonicalises an error; an error that is (by identity) the one the scripted writer
+// just returned is printed as writer(code) also when it is one of the library's own sentinels.
+func (e *dExec) errName(err error) string {
+	if err != nil && e.curW != nil && e.curW.lastErr != nil && err == e.curW.lastErr && e.curW.lastCode >= 7 {
+		return fmt.Sprintf("writer(%d)", e.curW.lastCode)
+	}
+	return errName(err)
+}
+
 func (e *dExec) gotNew() string { return hxl(e.w.got[e.gotBase:]) }
 
 func (e *dExec) step(line string) (out string) {
@@ -191,6 +201,7 @@ func (e *dExec) step(line string) (out string) {
 	}()
 	ws := strings.Fields(line)
 	b := e.buf
+	e.curW = e.w
 	if e.w != nil {
 		e.gotBase = len(e.w.got)
 		e.w.resetStreak()
@@ -213,9 +224,9 @@ func (e *dExec) step(line string) (out string) {
 		}
 		e.invariant(site)
 		if e.dd {
-			return fmt.Sprintf("%s %s %s", errName(err), e.gotNew(), e.state())
+			return fmt.Sprintf("%s %s %s", e.errName(err), e.gotNew(), e.state())
 		}
-		return fmt.Sprintf("%s %s", errName(err), e.state())
+		return fmt.Sprintf("%s %s", e.errName(err), e.state())
 	case "w":
 		p := unhx(ws[1])
 		var n int
@@ -245,9 +256,9 @@ func (e *dExec) step(line string) (out string) {
 		}
 		e.invariant(site)
 		if e.dd {
-			return fmt.Sprintf("%d %s %s %s", n, errName(err), e.gotNew(), e.state())
+			return fmt.Sprintf("%d %s %s %s", n, e.errName(err), e.gotNew(), e.state())
 		}
-		return fmt.Sprintf("%d %s %s", n, errName(err), e.state())
+		return fmt.Sprintf("%d %s %s", n, e.errName(err), e.state())
 	case "wm":
 		m64, _ := strconv.ParseUint(ws[1], 10, 32)
 		o64, _ := strconv.ParseUint(ws[2], 10, 32)
@@ -256,10 +267,10 @@ func (e *dExec) step(line string) (out string) {
 		n, err := b.WriteMatch(s.MatchLen, s.Offset)
 		if bad != "" {
 			e.cnt.inc("d.malformed")
-			if err == nil || errName(err) != bad || n != 0 {
+			if err == nil || e.errName(err) != bad || n != 0 {
 				e.find("C05", "malformed match not rejected", site, fmt.Sprintf("m=%d o=%d err=%v n=%d", m64, o64, err, n))
 			}
-		} else if err != nil && errName(err) != "full" && errName(err) != "matchLen" {
+		} else if err != nil && e.errName(err) != "full" && e.errName(err) != "matchLen" {
 			e.find("C05", "valid match rejected", site, fmt.Sprintf("m=%d o=%d err=%v", m64, o64, err))
 		}
 		if err == nil {
@@ -284,7 +295,7 @@ func (e *dExec) step(line string) (out string) {
 			e.classify(err, int64(m64), site)
 		}
 		e.invariant(site)
-		return fmt.Sprintf("%d %s %s", n, errName(err), e.state())
+		return fmt.Sprintf("%d %s %s", n, e.errName(err), e.state())
 	case "wblk":
 		seqs := parseSeqs(ws[1])
 		lits := unhx(ws[2])
@@ -317,7 +328,7 @@ func (e *dExec) step(line string) (out string) {
 		if k < 0 || k > len(seqs) || l < 0 || l > len(lits) {
 			e.find("C17", "k or l out of range", site, fmt.Sprintf("k=%d l=%d", k, l))
 			e.dead = true
-			return fmt.Sprintf("%d %d %d %s", n, k, l, errName(err))
+			return fmt.Sprintf("%d %d %d %s", n, k, l, e.errName(err))
 		}
 		wl := len(e.written)
 		var xerr error
@@ -347,14 +358,14 @@ func (e *dExec) step(line string) (out string) {
 					e.cnt.inc("d.malformed")
 					if k > i || err == nil {
 						e.find("C05", "malformed sequence accepted", site, fmt.Sprintf("seq=%d k=%d err=%v", i, k, err))
-					} else if k == i && errName(err) != bad {
+					} else if k == i && e.errName(err) != bad {
 						e.find("C05", "malformed sequence: wrong error", site, fmt.Sprintf("seq=%d err=%v want=%s", i, err, bad))
 					}
 					break
 				}
 				if i == k && err != nil {
 					// a well-formed sequence was refused: only for lack of space
-					if en := errName(err); en != "full" && en != "matchLen" && !strings.HasPrefix(en, "writer") && en != "shortWrite" {
+					if en := e.errName(err); en != "full" && en != "matchLen" && !strings.HasPrefix(en, "writer") && en != "shortWrite" {
 						e.find("C05", "well-formed sequence rejected", site, fmt.Sprintf("seq=%d err=%v", i, err))
 					}
 					e.classify(err, int64(seqs[i].LitLen)+int64(seqs[i].MatchLen), site)
@@ -372,9 +383,9 @@ func (e *dExec) step(line string) (out string) {
 		}
 		e.invariant(site)
 		if e.dd {
-			return fmt.Sprintf("%d %d %d %s %s %s", n, k, l, errName(err), e.gotNew(), e.state())
+			return fmt.Sprintf("%d %d %d %s %s %s", n, k, l, e.errName(err), e.gotNew(), e.state())
 		}
-		return fmt.Sprintf("%d %d %d %s %s", n, k, l, errName(err), e.state())
+		return fmt.Sprintf("%d %d %d %s %s", n, k, l, e.errName(err), e.state())
 	case "rd":
 		n, _ := strconv.Atoi(ws[1])
 		p := make([]byte, n)
@@ -417,6 +428,7 @@ func (e *dExec) step(line string) (out string) {
 		return fmt.Sprint(c)
 	case "wt":
 		w := &scriptWriter{resps: parseResps(ws[1])}
+		e.curW = w
 		n, err := b.WriteTo(w)
 		want := e.written[e.delivered:]
 		if int(n) != len(w.got) || int(n) > len(want) || string(w.got) != string(want[:len(w.got)]) {
@@ -424,7 +436,7 @@ func (e *dExec) step(line string) (out string) {
 		}
 		e.delivered += len(w.got)
 		e.invariant(site)
-		return fmt.Sprintf("%d %s %s %s", n, errName(err), hxl(w.got), e.state())
+		return fmt.Sprintf("%d %s %s %s", n, e.errName(err), hxl(w.got), e.state())
 	case "flush":
 		err := e.dec.Flush()
 		e.delivered = len(e.w.got)
@@ -438,7 +450,7 @@ func (e *dExec) step(line string) (out string) {
 			e.cnt.inc("dd.flush.err")
 		}
 		e.invariant(site)
-		return fmt.Sprintf("%s %s %s", errName(err), e.gotNew(), e.state())
+		return fmt.Sprintf("%s %s %s", e.errName(err), e.gotNew(), e.state())
 	case "dump":
 		return hx(b.Data)
 	}
@@ -448,7 +460,7 @@ func (e *dExec) step(line string) (out string) {
 // classify handles space errors: ErrFullBuffer from the Decoder itself and
 // errMatchLen for valid input are C07 territory.
 func (e *dExec) classify(err error, g int64, site string) {
-	switch errName(err) {
+	switch e.errName(err) {
 	case "matchLen":
 		e.cnt.inc("d.matchLen")
 		if g <= int64(e.buf.BufferSize-e.buf.WindowSize) {
